@@ -109,6 +109,13 @@ CHECKS = {
             "deciding datagram from its bytes and compares the expected device set with the result (Trace_Disc)",
             "Exhaustive model check of the arrival interleavings; the model's runs executed on the real code with concrete good/bad replies, "
             "TLC judging the returned device set and that nothing raises.", "5 C18"),
+    "C19": ("TLA+ Cloud.tla (request layout with re-derived SHA-256 inputs; login-id -> login -> getToken flow machine with per-attempt outcomes): "
+            "TLC checks Budget/OnlyMatching/AbsentIsError over all outcome sequences and token lists (MC_Cloud); the model's behaviours "
+            "(Gen_Cloud) are replayed on the real NetHomePlusCloud against a model server injected through get_async_client; TLC judges every "
+            "request and call outcome (Trace_Cloud); auto-connect discovery of V3 devices registered under either udpid byte order",
+            "Exhaustive model check of the flow; all 2-call behaviours (quick: sample) and 3-call behaviours executed on the real client with "
+            "TLC judging signature, account, password derivation, session id, attempt budget, error mapping and the returned entry; "
+            "end-to-end auto-connect with LE/BE registration.", "5 C19"),
 }
 
 
